@@ -116,6 +116,25 @@ pub fn run() -> i32 {
     tuple_block(&rep, &images, &[0, 5, 6], if th { 10 } else { 8 }, &cases);
     tuple_block(&rep, &images, &[0, 15, 16], if th { 10 } else { 8 }, &cases);
     tuple_block(&rep, &images, &[3, 16, 30, 255], if th { 7 } else { 5 }, &cases);
+    // every length 0..=L for every symbol-range class (marker = width<<4 | len mod width)
+    let lmax = if th { 4200 } else { 1100 };
+    let classes: Vec<(u8, &str)> = vec![(1, "max1"), (3, "max3"), (4, "max4"), (5, "max5"), (6, "max6"), (15, "max15"), (16, "max16"), (255, "max255")];
+    par_for(classes.len() * 3, ncpu(), |j| {
+        let (mx, _) = classes[j / 3];
+        let variant = j % 3;
+        let mut rng = Rng::new(rep.seed + j as u64);
+        for len in 0..=lmax {
+            let s: Vec<u8> = (0..len).map(|i| match variant { 0 => if i % 7 == 3 { mx } else { (i % (mx as usize + 1).min(4)) as u8 }, 1 => (rng.below(mx as u64 + 1)) as u8, _ => if i + 1 == len { mx } else { 0 } }).collect();
+            cases.fetch_add(1, Ordering::Relaxed);
+            match guarded(|| tuples_to_bytes(&bytes_to_tuples(&s))) {
+                Ok(u) => if u != s {
+                    rep.violation("C12:tuple_roundtrip", "tuples_to_bytes(bytes_to_tuples(x)) != x", json!({"len": len, "max_symbol": s.iter().max(), "got_len": u.len(), "pattern": variant}));
+                },
+                Err(m) => rep.violation("C12:tuple_unpack_panic", "tuple packing panicked", json!({"len": len, "max_symbol": mx, "msg": m})),
+            }
+        }
+    });
+    rep.set("length_sweep_max_len", json!(lmax));
     let n_images = images.lock().unwrap().len() as u64;
     rep.set("tuple_cases", json!(cases.load(Ordering::Relaxed)));
     rep.set("distinct_packed_images", json!(n_images));
@@ -154,6 +173,14 @@ pub fn run() -> i32 {
         }
     }
     // random (non-repetitive) strings of assorted lengths incl. with IUPAC codes / code 30
+    for len in [255usize, 256, 257, 258, 511, 512, 513, 767, 768, 769, 1023, 1025] {
+        let mut v = rng.bases(len);
+        v[len / 2] = 4;
+        inputs.push(v);
+        let mut v = rng.bases(len);
+        v[len / 3] = 5;
+        inputs.push(v);
+    }
     for len in [7usize, 8, 9, 31, 32, 33, 100, 1000, 5000] {
         inputs.push(rng.bases(len));
         let mut v = rng.bases(len);
